@@ -707,7 +707,7 @@ def plan(tier, seed):
                 [{'kind': 'random', 'seed': seed * 1000 + i, 'n': 220} for i in range(12)])
     return ([{'kind': 'corpus', 'part': i, 'of': 8} for i in range(8)] +
             [{'kind': 'truncate-all', 'seed': seed * 100000 + 500 + i, 'n': 40} for i in range(8)] +
-            [{'kind': 'random', 'seed': seed * 100000 + i, 'n': 3000} for i in range(48)])
+            [{'kind': 'random', 'seed': seed * 100000 + i, 'n': 2500} for i in range(48)])
 
 
 def run_batch(spec):
